@@ -95,6 +95,7 @@ static void one_config(int T, int dispatch, int setting, const char *bdesc) {
     if (setting == 1) { settings.window = 2; settings.psi_1b = settings.psi_1e = settings.psi_2b = settings.psi_2e = 1; settings.penalty = 0.5; }
     if (setting == 2) { settings.use_pruning = true; }
     if (setting == 3) { settings.max_dist = 2.5; settings.psi_1b = 1; }
+    if (setting == 4) { settings.max_length_diff = 1; }   /* some pairs are skipped (unequal lengths in the ptrs entries) */
     if (failed_cfgs >= 30) { caps++; return; }   /* enough counterexamples for this group */
     for (int i = 0; i < 64; i++) ref[i] = -7.0;
     vomp_begin(NULL, 0);            /* fresh arena for the serial reference run */
@@ -155,7 +156,7 @@ int main(int argc, char **argv) {
                 if (entry >= 4) { /* matrices variants need an explicit block for a defined layout */ }
                 snprintf(bdesc, sizeof bdesc, "none");
             }
-            for (int T = 1; T <= maxT; T++) for (int dispatch = 0; dispatch < 5; dispatch++) for (int setting = 0; setting < 4; setting++) {
+            for (int T = 1; T <= maxT; T++) for (int dispatch = 0; dispatch < 5; dispatch++) for (int setting = 0; setting < 5; setting++) {
                 if (T == 1 && dispatch > 0) continue;
                 if (setting >= 2 && dispatch != 0 && dispatch != 2) continue;   /* pruning / max_dist variants: static-1 and dynamic-1 */
                 one_config(T, dispatch, setting, bdesc);
